@@ -205,6 +205,22 @@ func stringOpts(pool []string, pats []pat, wrap func(string, *gen) any) func(g *
 				filterOpt{"const+pattern", map[string]any{"type": "string", "const": pt.good[0], "pattern": pt.re}, wrapAll(pt.good[:1], g), wrapAll(pt.bad, g)},
 				filterOpt{"enum-type-mismatch", map[string]any{"type": "number", "enum": enum}, nil, wrapAll(in, g)},
 			)
+			if g.edge > 0 {
+				// enum combined with the other keywords (all of them have to hold): an enum that lists a value the pattern
+				// refuses next to one it takes; an enum next to a const that is one of its values. Their typeless forms come
+				// from the `type` dropping of edge mode.
+				enumP := []string{pt.good[0], "zzz"}
+				goodP, badP := []string{pt.good[0]}, append([]string{"zzz"}, pt.good[1:]...)
+				if len(pt.bad) > 0 {
+					enumP = append(enumP, pt.bad[0])
+					badP = append(badP, pt.bad...)
+				}
+				g.rnd.Shuffle(len(enumP), func(a, b int) { enumP[a], enumP[b] = enumP[b], enumP[a] })
+				opts = append(opts,
+					filterOpt{"enum+" + kindP, map[string]any{"type": "string", "enum": strs(enumP), "pattern": pt.re}, wrapAll(goodP, g), wrapAll(badP, g)},
+					filterOpt{"enum+const", map[string]any{"type": "string", "enum": enum, "const": in[0]}, wrapAll(in[:1], g), wrapAll(append(append([]string{"zzz"}, in[1:]...), out...), g)},
+				)
+			}
 		}
 		return opts
 	}
